@@ -36,8 +36,8 @@ const (
 )
 
 func TestMain(m *testing.M) {
-	vlib.Rule("C37: one fresh source volume (own collection) per history on a `weed master` + `weed volume` child pair; histories of 3-16 steps over 6 needle keys written in arbitrary key order: HTTP upload / overwrite (1-3000 B, rarely 2.3 MiB so that the copy stream needs more than one block; text or random, names/mimes that do or do not make the server compress, equal-size replacements frequent), re-upload of identical content, HTTP delete, vacuum through the master (/vol/vacuum?garbageThreshold=0.0001) and Backup = the real `weed backup -server -dir -volumeId -collection` process (1-4 per history, also back to back; the last step is always a backup). A second generator forces the shape writes,backup,changes,vacuum,changes,backup. Oracle after every backup: a copy of the backup directory is loaded by an in-process storage.Store (memory needle map) and every key of the universe must be not-found / found with byte-identical decoded content, file name, content type and last-modified exactly as the source volume server answers GET for it. Non-trivial = a backup after a source compaction, or a second backup after further writes/deletes.")
-	vlib.Assume("the backup is judged the way a volume server would serve it: loaded with storage.NewStore from a copy of the directory (the load itself may repair/truncate files, as it would in production); the source is judged by its HTTP answers; operations are strictly sequential; because `weed backup` preallocates a hard-coded 30 GiB for a locally compacted volume file, one backup command runs at a time per machine and the unwritten blocks beyond the end of the backup files are released after each run (file contents untouched); empty payloads (listed C03/C04 items) and TTL volumes are not generated")
+	vlib.Rule("C37: one fresh source volume (own collection) per history on a `weed master` + `weed volume` child pair; histories of 3-16 steps over 6 needle keys written in arbitrary key order: HTTP upload / overwrite (1-3000 B, rarely 2.3 MiB so that the copy stream needs more than one block; text or random, names/mimes that do or do not make the server compress, equal-size replacements frequent), re-upload of identical content, HTTP delete, vacuum through the master (/vol/vacuum?garbageThreshold=0.0001) and Backup = the real `weed backup -server -dir -volumeId -collection` process (1-4 per history, also back to back; the last step is always a backup). A second generator forces the shape writes,backup,changes,vacuum,changes,backup. Each history costs several process starts and the backup commands of all shards are serialised, so the thorough tier is deliberately small (300+130 histories) to stay within ~25 min on a loaded machine. Oracle after every backup: a copy of the backup directory is loaded by an in-process storage.Store (memory needle map) and every key of the universe must be not-found / found with byte-identical decoded content, file name, content type and last-modified exactly as the source volume server answers GET for it. Non-trivial = a backup after a source compaction, or a second backup after further writes/deletes.")
+	vlib.Assume("the backup is judged the way a volume server would serve it: loaded with storage.NewStore from a copy of the directory (the load itself may repair/truncate files, as it would in production); the source is judged by its HTTP answers; operations are strictly sequential (the master's periodic vacuum is switched off with -garbageThreshold=2, and a history whose source revision moves while a backup runs is abandoned without verdict); because `weed backup` preallocates a hard-coded 30 GiB for a locally compacted volume file, one backup command runs at a time per machine and the unwritten blocks beyond the end of the backup files are released after each run (file contents untouched); empty payloads (listed C03/C04 items) and TTL volumes are not generated")
 	vlib.Main(m)
 }
 
@@ -52,7 +52,14 @@ var (
 )
 
 func cluster(t interface{ Fatalf(string, ...any) }) *vlib.Cluster {
-	clOnce.Do(func() { cl, clErr = vlib.StartCluster(vlib.ClusterOpts{Volumes: 1, VolumeMax: 100}) })
+	clOnce.Do(func() {
+		cl, clErr = vlib.StartCluster(vlib.ClusterOpts{Volumes: 1, VolumeMax: 100,
+			// the master vacuums every volume above -garbageThreshold every 15 minutes on its own; that
+			// would compact a source volume at a moment the history does not know (seen once on a very
+			// loaded machine, exactly 30 min after the cluster start). A threshold no volume can reach
+			// switches the periodic run off; /vol/vacuum?garbageThreshold=... is not affected.
+			MasterArgs: []string{"-garbageThreshold=2"}})
+	})
 	if clErr != nil {
 		t.Fatalf("INCONCLUSIVE cluster start: %v", clErr)
 	}
@@ -593,6 +600,7 @@ type runner struct {
 	changedSince  bool // a write/delete that changed the source since the last backup
 	compactedEver bool
 	nontrivial    bool
+	abandoned     bool
 	classes       map[string]bool
 	desc          []string
 }
@@ -605,6 +613,9 @@ func (r *runner) class(c string) { r.classes[c] = true }
 
 func (r *runner) do(s step) {
 	e := r.e
+	if r.abandoned {
+		return
+	}
 	switch s.kind {
 	case "w":
 		code := e.write(s.key, s.b)
@@ -706,6 +717,13 @@ func (r *runner) backup() {
 		r.class("backup-without-change")
 	}
 	e.runBackup()
+	if after := e.status(); after.rev != src.rev {
+		// the source was compacted while the backup ran: not a sequential history (nobody in
+		// the history asked for it); no verdict for this case
+		e.logf("source revision moved %d -> %d during the backup: case abandoned", src.rev, after.rev)
+		r.abandoned = true
+		return
+	}
 	r.backups++
 	e.logf("%s#%d (source rev=%d tail=%d)", label, r.backups, src.rev, src.tail)
 	bs, err := e.checkConverged(r.model)
@@ -747,6 +765,10 @@ func (r *runner) backup() {
 }
 
 func (r *runner) finish() {
+	if r.abandoned {
+		vlib.Class("abandoned:source-compacted-during-backup")
+		return
+	}
 	first := "plain"
 	switch {
 	case r.classes["compacted-between-backups:incremental"] || r.classes["compacted-between-backups"]:
@@ -773,7 +795,7 @@ func (r *runner) finish() {
 }
 
 func TestPropBackupConverges(t *testing.T) {
-	vlib.Check(t, 90, 900, func(t *rapid.T) {
+	vlib.Check(t, 90, 300, func(t *rapid.T) {
 		r := newRunner(t)
 		defer r.e.close()
 		n := rapid.IntRange(3, 16).Draw(t, "nSteps")
@@ -789,7 +811,7 @@ func TestPropBackupConverges(t *testing.T) {
 // The shape the statement singles out: a backup, then changes with a source compaction
 // somewhere among them, then another backup (and a third one after more changes).
 func TestPropCompactionBetweenBackups(t *testing.T) {
-	vlib.Check(t, 40, 400, func(t *rapid.T) {
+	vlib.Check(t, 40, 130, func(t *rapid.T) {
 		r := newRunner(t)
 		defer r.e.close()
 		mut := func(label string, lo, hi int) {
